@@ -199,5 +199,7 @@ def run(repo: Repo, rep: Report, tier: str) -> None:
 
     # ---------------- R6 ---------------------------------------------------------------
     from .shared import borrow as _borrow2
+    _borrow2(repo, rep, "C01", "C01-R10", "C02-R7", "`(b CMP x) : b` forwards each kept member's own value: the lowering spells this as a literal 1 with the copy-count flag on signal-each, "
+             "and the placer keeps the flag for a literal that was already a literal in the IR", select=lambda o: "never for the IR's own literal" in o.construct, floor=2)
     _borrow2(repo, rep, "C13", "C13-R3", "C02-R6", "a member read from a bundle (`b[\"t\"]`) keeps the name t whatever signal the bundle's own producer was resolved to: the name resolver "
              "passes explicit names through on the strength of the name alone", floor=2)
